@@ -37,6 +37,12 @@ def configs_for(tier):
     return ["all"] if tier == "quick" else ["all", "nodefault", "lib-stdlib", "lib-jekyll", "lib-shopify", "lib-extra", "release"]
 
 
+def _sink_path_files(fn):
+    f = fn.file
+    return f.endswith(("parser/text.rs", "parser/filter_chain.rs", "runtime/template.rs", "src/template.rs", "runtime/renderable.rs",
+                       "blocks/raw_block.rs", "blocks/ifchanged_block.rs", "tags/cycle_tag.rs", "tags/increment_tags.rs")) or "/error/" in f
+
+
 def c10(rep, tier):
     for cfg in configs_for(tier):
         p = P(cfg)
@@ -57,6 +63,9 @@ def c10(rep, tier):
         r_wprop.run_sink_identity(p, rep)
         # a failed write returns early: nothing a renderable staged may survive in the compiled node (no interior mutability)
         r_freeze.run_freeze(p, rep)
+        # "never a panic": panic-capable sites (incl. string slices) in the files that sit on the write / error-decoration path
+        g = grammar.load(facts.REPO)
+        r_panic.run(p, rep, g, "both", only=_sink_path_files)
         rep.analysed["config:all"] = {"bodies": len(p.fns), "crates": p.crates}
 
 
@@ -85,6 +94,7 @@ def c08(rep, tier):
     r_scope.run_args_loud(p, rep)
     r_pair.check_loop_reset(p, rep, "<liquid_lib::stdlib::tags::render_tag::Render as liquid_core::runtime::renderable::Renderable>::render_to", "Render::render_to(for)")
     r_partials.run_loud(p, rep)
+    r_partials.run_no_skip(p, rep)
     # the *tag* fails when its partial does not parse: a broken partial is kept as a per-name Result, building the parser never fails on it
     r_partials.run_eager_shape(p, rep)
     r_partials.run_compile_never_fails(p, rep)
@@ -139,6 +149,9 @@ def c06(rep, tier):
     r_table.run_truth_table(p, rep)
     r_cmp.run_eqonly(p, rep)
     r_cmp.run_contains(p, rep)
+    r_cmp.run_cmp_orientation(p, rep)
+    r_cmp.run_mirror(p, rep)
+    r_table.run_missing_key_eq(p, rep)
     r_parsers.run_when_values(p, rep)
     r_pair.run_argflow(p, rep)
     rep.analysed["config:all"] = {"bodies": len(p.fns)}
@@ -218,6 +231,7 @@ def c11(rep, tier):
     r_cmp.run_mirror(p, rep)
     r_cmp.run_cmp_orientation(p, rep)
     r_cmp.run_no_identity(p, rep)
+    r_table.run_missing_key_eq(p, rep)
     r_cmp.run_contains(p, rep)
     r_cmp.run_value_symmetry(p, rep)
     r_cmp.run_orderins(p, rep, [r_cmp.CORE_FNS["value_eq"], r_cmp.CORE_FNS["value_cmp"]])
@@ -322,6 +336,9 @@ def c07(rep, tier):
     r_lookup.run_literal_verbatim(p, rep)
     r_lookup.run_noclamp(p, rep)
     r_lookup.run_path_verbatim(p, rep)
+    r_fwd.run_runtime_matrix(p, rep, methods=["get", "try_get"])
+    r_fwd.run_lookup_keying(p, rep)
+    r_math.run_coerce(p, rep)
     # literal obligations of parse_literal (shared with C01): grammar facts for every literal conversion
     sub = type(rep)(rep.prop, rep.tier)
     r_panic.run(p, sub, g, "parse")
